@@ -52,6 +52,8 @@ def instances(tier, seed):
     warm = [dict(i, name=i["name"] + "-warm", params=dict(i["params"], warm=True)) for i in out
             if i["fn"] == "wslice" and (tier != "quick" or sum(i["params"]["lens"]) <= 3)]
     out += warm
+    out += [dict(i, name=i["name"] + "-concat", params=dict(i["params"], concat=True)) for i in out
+            if i["fn"] == "width" and i["params"]["K"] >= 2 and not i["params"].get("warm")]
     out.append({"name": "overlap", "fn": "overlap", "timeout": T, "params": {}})
     return out
 
@@ -106,6 +108,18 @@ def _kpre(ks):
 def _build(ts):
     from curtsies.formatstring import FmtStr, Chunk
     K = P["K"]
+    if P.get("concat"):
+        # built by +: every operand was rendered and measured before; the last run is a plain str operand
+        f = None
+        for i in range(K):
+            piece = ts[i] if (i == K - 1 and K >= 2) else FmtStr(Chunk(ts[i], ATTS[i]))
+            if not isinstance(piece, str):
+                H.warm(piece)
+                piece.width
+            f = piece if f is None else f + piece
+            H.warm(f)
+            f.width
+        return f
     f = FmtStr(*[Chunk(t, a) for t, a in zip(ts[:K], ATTS)])
     if P.get("warm"):
         H.warm(f)
